@@ -133,9 +133,15 @@ def gen_behaviour(ch, prof, spec, *, may_skip, is_src=False):
     if spec['form'] == 'frame':
         # a lone Frame always arrives as 'main'
         spec['out'] = [dict(spec['out'][0], name='main')]
-    if spec['form'] == 'callable' and may_skip and prof.skip and _chance(ch, 1, 4):
+    if spec['form'] == 'callable' and may_skip and prof.skip and _chance(ch, 1, 2):
         mod = ch.rng_int('gen', 2, 5)
         spec['defer_none'] = [mod, ch.rng_int('gen', 0, mod - 1)]
+        if _chance(ch, 1, 2):
+            # a run of consecutive frames for which the deferred result is None: the filter's send side stays behind
+            # what its receive side has delivered for a while (and a fault may land inside that window)
+            a = ch.rng_int('gen', 1, 8)
+            n = ch.rng_int('gen', 3, 10) if not _chance(ch, 1, 2) else 200      # 200: from frame a to the end of the run
+            spec['defer_none'] = {'set': list(range(a, a + n))}
     if prof.empty and spec['form'] != 'frame' and _chance(ch, 1, 6):
         mod = ch.rng_int('gen', 3, 6)
         spec['empty'] = [mod, ch.rng_int('gen', 0, mod - 1)]
@@ -435,6 +441,10 @@ def gen_faults(ch, prof, sc):
     nf = sc['n_frames']
     # rough active span of the run: frames * (source period + a bit)
     span_ms = max(50, min(8000, nf * 40))
+    # the stream only starts flowing once connections and handshakes are through (slow links: many hundred ms): the
+    # window faults are drawn from covers start-up AND the active phase
+    net = (sc.get('knobs') or {}).get('net') or {}
+    span_ms += (net.get('conn_max_ns', 5 * MS) + 4 * net.get('lat_max_ns', 2 * MS)) // MS + 200
     if 'drop_pub' in kinds and ch.chance('fault', 1, 3):
         sc['knobs']['net']['drop_pub'] = (1, ch.pick('fault', [20, 6, 50]))
     n = ch.rng_int('fault', 1, prof.max_faults)
@@ -485,6 +495,10 @@ def gen_faults(ch, prof, sc):
             node = ch.pick('fault', order)
             out.append({'kind': 'stop', 'node': node, 'at_ns': at, 'plus_steps': plus,
                         'restart_after_ns': ch.pick('fault', [0, 30, 300, 2000]) * MS})
+            if ch.chance('fault', 2, 3):
+                # a rolling restart of one filter of a pipeline that is meant to go on: nobody obeys its exit message
+                for n2 in order:
+                    sc['nodes'][n2]['obey_exit'] = 'none'
     return out
 
 
@@ -720,6 +734,15 @@ def gen_c08(ch, prof):
         spec['exit_after'] = ch.pick('gen', [f'0:{t_ms / 1000:.3f}', f'0:0:{t_ms // 1000}', f'{t_ms / 1000:.1f}'])
     elif cause == 'exit_after_at':
         spec['exit_after'] = '@+' + str(t_ms)      # resolved to an absolute wall-clock text by the world at start
+    if cause.startswith('exit_after') and spec.get('has_output', True) and ch.chance('gen', 1, 3):
+        # the filter gives up sending after outputs_timeout and its consumers have stopped asking (stuck in process(),
+        # deaf to everything): every send times out, exit_after must end the filter all the same
+        spec['outputs_timeout'] = ch.pick('gen', [100, 300, 50])
+        for n in order:
+            if any(s2['from'] == x for s2 in nodes[n].get('sources') or []):
+                nodes[n]['proc_ns'] = [10 ** 6 * MS]
+                nodes[n]['obey_exit'] = 'none'
+        sc['send_timeouts'] = True
     sc['faults'] = faults
     sc['n_frames'] = 10 ** 9
     sc['settle_ns'] = 10 ** 18
